@@ -630,7 +630,7 @@ func TestCheck(t *testing.T) {
 	}
 	r.Set("accessors_modelled", len(accessors))
 	r.Set("accessors_unmodelled", unmodelled)
-	nrand := r.Pick(200, 5000)
+	nrand := r.Pick(200, 20000)
 	k := 0
 	for ai := range accessors {
 		a := &accessors[ai]
@@ -666,7 +666,7 @@ func TestCheck(t *testing.T) {
 	r.Set("exhaustive", true)
 	r.Set("exhaustive_scope", "every raw length 0..64 for every accessor")
 	// reverse direction: constructor -> UpdateOption -> accessor
-	m := r.Pick(20000, 400000)
+	m := r.Pick(20000, 4000000)
 	for i := 0; i < m; i++ {
 		if r.Mine(i) {
 			setGet(r, i)
